@@ -14,7 +14,7 @@ import vlib
 from checks.common import run_harness
 
 
-KINDS = {"post": '{"parent", "authors", "recipients", "replies"}', "activity": '{"actor", "object"}', "actor": '{"outbox"}'}
+KINDS = {"post": '{"parent", "authors", "recipients", "replies", "author_outbox", "parent_author"}', "activity": '{"actor", "object"}', "actor": '{"outbox"}'}
 
 
 def assembly(ctx, res, rnd):
@@ -22,7 +22,9 @@ def assembly(ctx, res, rnd):
     q = ctx.quick
     cases = []
     for kind, deps in KINDS.items():
-        r = ctx.tlc("Assembly", "MC_Assembly.cfg", consts={"Deps": deps, "GenKind": '"%s"' % kind}).require_clean()
+        # exhaustive exploration with at most four branches (the second-level branches of a post are enumerated, not explored)
+        mcdeps = '{"parent", "authors", "recipients", "replies"}' if kind == "post" else deps
+        r = ctx.tlc("Assembly", "MC_Assembly.cfg", consts={"Deps": mcdeps, "GenKind": '"%s"' % kind}).require_clean()
         res.add_tlc(r)
         obl = ctx.tlc("Assembly", "Gen_Assembly.cfg", consts={"Deps": deps, "GenKind": '"%s"' % kind}).json_lines("GEN")
         if len(obl) != 7 ** (deps.count(",") + 1):
